@@ -1,7 +1,7 @@
 #!/usr/bin/env python3
 """Run the repository's pinned test suite (guard OFF) and compare with /root/.vp/BASELINE.json.
 
-usage: baseline_check.py [--xml existing.junit.xml] [--repo <checkout>]
+usage: baseline_check.py [--xml existing.junit.xml] [--repo <checkout>] [--fast]
 exit 0 iff every test in BASELINE.stable_pass passes."""
 import json, os, subprocess, sys, tempfile
 import xml.etree.ElementTree as ET
@@ -17,6 +17,8 @@ def main():
         env = dict(os.environ)
         env.pop('METRIC_LEARN_VERIF', None)
         cmd = base['cmd'].replace('<file>', xml)
+        if '--fast' in sys.argv:      # development only: pytest-xdist (the registered baseline command stays as pinned)
+            cmd = cmd.replace('-m pytest', '-m pytest -n 4')
         if '--repo' in sys.argv:
             cmd = cmd.replace('cd /repo', 'cd ' + sys.argv[sys.argv.index('--repo') + 1])
         subprocess.run(cmd, shell=True, env=env, stdout=subprocess.DEVNULL, stderr=subprocess.DEVNULL)
